@@ -22,7 +22,7 @@ RULE = ("netlists: 1-3 modules from 27 shapes (soft/hard/fixed x {single rectang
         "soft modules grown 10%; each branch slid 0.2 along its side; and from each legal configuration every perturbation of the menu {cross each die border by 0.5, "
         "stretch a soft rectangle beyond the ratio limit, shrink a soft module's area by 36%, detach a branch by 0.25, slide a branch 0.5 past the trunk end, swap two "
         "siblings, overlap two siblings by 0.3, overlap two modules by >=0.5, push a module 0.4 deep onto each single branch of another module, change a hard rectangle's width by 0.25, change a hard branch offset by 0.25, move a fixed "
-        "module by 0.5}; the input configuration of every 1-module netlist and of pairs with softN / hard1 written in other units (all lengths x 100000.3). Non-trivial = configurations other than the unmodified input; distinct by construction.")
+        "module by 0.5}; the input configuration of every 1-module netlist and of pairs with softN / hard1 written in other units (all lengths x 100000.3); the complete configuration menu on every 1-module netlist (and pairs with softN) written in units of 1e-4 and 1e3, and on netlists whose rectangles were assigned through Netlist.assign_rectangles; the bounds of the model's variables count as part of the system. Non-trivial = configurations other than the unmodified input; distinct by construction.")
 ASSUMPTIONS = ["annealing slack set to ~0 via model.time (0.3*0.9^1000); the step-cap ('radius'), time ('Exact Value') and switched-off-rectangle ('Rid') groups are bookkeeping of the "
                "annealing loop, not legality, and are excluded",
                "clauses are judged with margins: satisfied with slack or tight by construction, violated by >= 0.1; configurations with a clause in between are skipped as ambiguous "
